@@ -517,6 +517,77 @@ func (m *ldMachine) genOp(rt *rapid.T, i int) ldOp {
 
 // ---- application ----
 
+// buildMsg builds the message of an operation against the current state (false: the position it names is gone).
+func (m *ldMachine) buildMsg(op ldOp) (sdk.Msg, bool) {
+	c, cfg := m.c, &m.cs.Cfg
+	from := c.Accs[op.U].Addr.String()
+	var msg sdk.Msg
+	amt := sdk.ZeroInt()
+	if op.A != "" {
+		amt = mustInt(op.A)
+	}
+	var bBefore lendtypes.BorrowAsset
+	var lBefore lendtypes.LendAsset
+	_, _ = bBefore, lBefore
+	switch op.K {
+	case "fundmod":
+		msg = lendtypes.NewMsgFundModuleAccounts(m.pools[op.Pool], cfg.Assets[op.Asset].ID, c.Accs[cfg.NUsers].Addr.String(), sdk.NewCoin(ldDenom(op.Asset), amt))
+	case "lend":
+		msg = lendtypes.NewMsgLend(from, cfg.Assets[op.Asset].ID, sdk.NewCoin(ldDenom(op.Asset), amt), m.pools[op.Pool], m.app)
+	case "deposit", "withdraw":
+		lBefore, _ = m.k.GetLend(c.Ctx, op.ID)
+		ai := m.assetIdx(lBefore.AssetID)
+		if ai < 0 {
+			return nil, false
+		}
+		if op.K == "deposit" {
+			msg = lendtypes.NewMsgDeposit(from, op.ID, sdk.NewCoin(ldDenom(ai), amt))
+		} else {
+			msg = lendtypes.NewMsgWithdraw(from, op.ID, sdk.NewCoin(ldDenom(ai), amt))
+		}
+	case "closelend":
+		lBefore, _ = m.k.GetLend(c.Ctx, op.ID)
+		msg = lendtypes.NewMsgCloseLend(from, op.ID)
+	case "borrow":
+		lBefore, _ = m.k.GetLend(c.Ctx, op.ID)
+		p := m.pairs[op.Pair]
+		msg = lendtypes.NewMsgBorrow(from, op.ID, p.Id, op.Stable, sdk.NewCoin(ldCDenom(m.assetIdx(p.AssetIn)), amt), sdk.NewCoin(ldDenom(m.assetIdx(p.AssetOut)), mustInt(op.B)))
+	case "borrowalt":
+		p := m.pairs[op.Pair]
+		msg = lendtypes.NewMsgBorrowAlternate(from, cfg.Assets[op.Asset].ID, m.pools[op.Pool], sdk.NewCoin(ldDenom(op.Asset), amt), p.Id, op.Stable, sdk.NewCoin(ldDenom(m.assetIdx(p.AssetOut)), mustInt(op.B)), m.app)
+	case "depositborrow", "draw", "repay", "closeborrow":
+		var found bool
+		bBefore, found = m.k.GetBorrow(c.Ctx, op.ID)
+		if !found {
+			return nil, false
+		}
+		p := m.pairByID(bBefore.PairID)
+		switch op.K {
+		case "depositborrow":
+			msg = lendtypes.NewMsgDepositBorrow(from, op.ID, sdk.NewCoin(ldCDenom(m.assetIdx(p.AssetIn)), amt))
+		case "draw":
+			msg = lendtypes.NewMsgDraw(from, op.ID, sdk.NewCoin(ldDenom(m.assetIdx(p.AssetOut)), amt))
+		case "repay":
+			msg = lendtypes.NewMsgRepay(from, op.ID, sdk.NewCoin(ldDenom(m.assetIdx(p.AssetOut)), amt))
+		case "closeborrow":
+			msg = lendtypes.NewMsgCloseBorrow(from, op.ID)
+		}
+	case "calc":
+		msg = lendtypes.NewMsgCalculateInterestAndRewards(from)
+	case "liqmsg":
+		msg = liqv2types.NewMsgLiquidateInternalKeeperRequest(c.Accs[op.U].Addr, 1, op.ID)
+	case "bid":
+		a, err := c.App.NewaucKeeper.GetAuction(c.Ctx, op.ID)
+		if err != nil {
+			return nil, false
+		}
+		msg = auctypes.NewMsgPlaceMarketBid(from, op.ID, sdk.NewCoin(a.DebtToken.Denom, amt))
+	default:
+		panic("unknown lend op " + op.K)
+	}
+	return msg, true
+}
+
 func (m *ldMachine) apply(i int, op ldOp) {
 	c, cfg := m.c, &m.cs.Cfg
 	switch op.K {
@@ -541,72 +612,14 @@ func (m *ldMachine) apply(i int, op ldOp) {
 		m.invariants(i, op)
 		return
 	}
-	from := c.Accs[op.U].Addr.String()
-	var msg sdk.Msg
+	msg, okMsg := m.buildMsg(op)
+	if !okMsg {
+		m.invariants(i, op)
+		return
+	}
 	amt := sdk.ZeroInt()
 	if op.A != "" {
 		amt = mustInt(op.A)
-	}
-	var bBefore lendtypes.BorrowAsset
-	var lBefore lendtypes.LendAsset
-	switch op.K {
-	case "fundmod":
-		msg = lendtypes.NewMsgFundModuleAccounts(m.pools[op.Pool], cfg.Assets[op.Asset].ID, c.Accs[cfg.NUsers].Addr.String(), sdk.NewCoin(ldDenom(op.Asset), amt))
-	case "lend":
-		msg = lendtypes.NewMsgLend(from, cfg.Assets[op.Asset].ID, sdk.NewCoin(ldDenom(op.Asset), amt), m.pools[op.Pool], m.app)
-	case "deposit", "withdraw":
-		lBefore, _ = m.k.GetLend(c.Ctx, op.ID)
-		ai := m.assetIdx(lBefore.AssetID)
-		if ai < 0 {
-			m.invariants(i, op)
-			return
-		}
-		if op.K == "deposit" {
-			msg = lendtypes.NewMsgDeposit(from, op.ID, sdk.NewCoin(ldDenom(ai), amt))
-		} else {
-			msg = lendtypes.NewMsgWithdraw(from, op.ID, sdk.NewCoin(ldDenom(ai), amt))
-		}
-	case "closelend":
-		lBefore, _ = m.k.GetLend(c.Ctx, op.ID)
-		msg = lendtypes.NewMsgCloseLend(from, op.ID)
-	case "borrow":
-		lBefore, _ = m.k.GetLend(c.Ctx, op.ID)
-		p := m.pairs[op.Pair]
-		msg = lendtypes.NewMsgBorrow(from, op.ID, p.Id, op.Stable, sdk.NewCoin(ldCDenom(m.assetIdx(p.AssetIn)), amt), sdk.NewCoin(ldDenom(m.assetIdx(p.AssetOut)), mustInt(op.B)))
-	case "borrowalt":
-		p := m.pairs[op.Pair]
-		msg = lendtypes.NewMsgBorrowAlternate(from, cfg.Assets[op.Asset].ID, m.pools[op.Pool], sdk.NewCoin(ldDenom(op.Asset), amt), p.Id, op.Stable, sdk.NewCoin(ldDenom(m.assetIdx(p.AssetOut)), mustInt(op.B)), m.app)
-	case "depositborrow", "draw", "repay", "closeborrow":
-		var found bool
-		bBefore, found = m.k.GetBorrow(c.Ctx, op.ID)
-		if !found {
-			m.invariants(i, op)
-			return
-		}
-		p := m.pairByID(bBefore.PairID)
-		switch op.K {
-		case "depositborrow":
-			msg = lendtypes.NewMsgDepositBorrow(from, op.ID, sdk.NewCoin(ldCDenom(m.assetIdx(p.AssetIn)), amt))
-		case "draw":
-			msg = lendtypes.NewMsgDraw(from, op.ID, sdk.NewCoin(ldDenom(m.assetIdx(p.AssetOut)), amt))
-		case "repay":
-			msg = lendtypes.NewMsgRepay(from, op.ID, sdk.NewCoin(ldDenom(m.assetIdx(p.AssetOut)), amt))
-		case "closeborrow":
-			msg = lendtypes.NewMsgCloseBorrow(from, op.ID)
-		}
-	case "calc":
-		msg = lendtypes.NewMsgCalculateInterestAndRewards(from)
-	case "liqmsg":
-		msg = liqv2types.NewMsgLiquidateInternalKeeperRequest(c.Accs[op.U].Addr, 1, op.ID)
-	case "bid":
-		a, err := c.App.NewaucKeeper.GetAuction(c.Ctx, op.ID)
-		if err != nil {
-			m.invariants(i, op)
-			return
-		}
-		msg = auctypes.NewMsgPlaceMarketBid(from, op.ID, sdk.NewCoin(a.DebtToken.Denom, amt))
-	default:
-		panic("unknown lend op " + op.K)
 	}
 	borrowsBefore := map[uint64]lendtypes.BorrowAsset{}
 	for _, b := range m.k.GetAllBorrow(c.Ctx) {
